@@ -952,10 +952,14 @@ class TreeTransform(Generic[TreeFnT]):
     """Returns the output_keys (assign_keys for assign) of this transform."""
     result = set()
     for fn in self.fns:
+      if isinstance(fn, tree_fns.Sink):
+        # A sink forwards the records unchanged, it adds no key.
+        continue
       non_dict_keys, dict_keys = mit.partition(_is_dict, fn.output_keys)
       # Aggregate and Assign/Apply Ops are separated into different transforms.
-      # The base TreeFn means this is an Apply Op.
-      if type(fn) is tree_fns.TreeFn:  # pylint: disable=unidiomatic-typecheck
+      # The base TreeFn means this is an Apply Op, which replaces the record as
+      # a Select does: only their own keys exist afterwards.
+      if type(fn) is tree_fns.TreeFn or isinstance(fn, tree_fns.Select):  # pylint: disable=unidiomatic-typecheck
         result = set()
       result.update(itertools.chain(non_dict_keys, *dict_keys))
     return result
